@@ -134,4 +134,33 @@ theorem IsProper.mulVec_tmulVec {a : Mat33 K} (ha : IsProper a) (v : Vec3 K) : a
 
 end Mat33
 end CommRing
+
+section FieldLemmas
+variable {K : Type} [Field K]
+open Mat33
+namespace Rotation
+/-- **`reexpressSymMat33` (Featherstone's 57-flop trick) equals `R S Rᵀ`** for every proper rotation `R` and
+symmetric `S` — all nine entries -/
+theorem reexpressSymMat33_eq' (R : Mat33 K) (h : IsProper R) (S : SymMat33 K) :
+    (reexpressSymMat33 R S).toMat33 = (R.mul S.toMat33).mul R.transpose := by
+  have hadj := h.adj_eq
+  have hm := h.mult
+  have ht := h.tmul
+  simp only [Mat33.adj, Mat33.transpose, Mat33.mul, Mat33.one, Mat33.diag, Mat33.mk.injEq] at hadj hm ht
+  obtain ⟨k00, k01, k02, k10, k11, k12, k20, k21, k22⟩ := hadj
+  obtain ⟨m00, m01, m02, m10, m11, m12, m20, m21, m22⟩ := hm
+  obtain ⟨t00, t01, t02, t10, t11, t12, t20, t21, t22⟩ := ht
+  simp only [reexpressSymMat33, SymMat33.toMat33, Mat33.mul, Mat33.transpose]
+  ext <;> simp only []
+  · linear_combination (-S.zz) * m00 + (-S.xx + S.zz) * t00 + (-2*S.xy) * t01 + (-2*S.xz) * t02 + (-S.yy + S.zz) * t11 + (-2*S.yz) * t12
+  · linear_combination (-S.zz) * m01 + (S.yz) * k02 + (-S.xz) * k12
+  · linear_combination (-S.yz) * k01 + (-S.zz) * m02 + (S.xz) * k11
+  · linear_combination (-S.zz) * m01 + (S.yz) * k02 + (-S.xz) * k12
+  · linear_combination (-S.zz) * m11
+  · linear_combination (S.yz) * k00 + (-S.xz) * k10 + (-S.zz) * m12
+  · linear_combination (-S.yz) * k01 + (-S.zz) * m02 + (S.xz) * k11
+  · linear_combination (S.yz) * k00 + (-S.xz) * k10 + (-S.zz) * m12
+  · linear_combination (-S.zz) * m22
+end Rotation
+end FieldLemmas
 end Spatial
